@@ -121,6 +121,88 @@ fn reference_verdict(world_pkg: &[u8], output: &[u8]) -> Result<bool, String> {
     Ok(n.component_is_subtype_of(1, &world_entity))
 }
 
+/// Second workload: two instantiations implicitly import the same plain name with different,
+/// mergeable instance types; the target world offers the union, or only what one of them needs.
+/// The merged import of the output needs the union, so anything less must be rejected whatever the
+/// order of the two `let` statements.
+fn merged_import_case(ctx: &mut Ctx, case: u64, rng: &mut Rng) {
+    let f = |n: &str| Func { name: n.to_string(), params: vec![], result: None };
+    let shared = |names: &[&str]| WorldItem::Inline { name: "shared".into(), iface: witgen::Iface { name: "shared".into(), uses: vec![], types: vec![], funcs: names.iter().map(|n| f(n)).collect() } };
+    let all = ["s0", "s1", "s2"];
+    let a: Vec<&str> = all.iter().copied().filter(|_| rng.chance(1, 2)).collect();
+    let b: Vec<&str> = all.iter().copied().filter(|_| rng.chance(1, 2)).collect();
+    if a.is_empty() || b.is_empty() {
+        return;
+    }
+    let mut union: Vec<&str> = a.clone();
+    for x in &b {
+        if !union.contains(x) {
+            union.push(x);
+        }
+    }
+    let offered: Vec<&str> = match rng.below(4) {
+        0 => union.clone(),
+        1 => a.clone(),
+        2 => b.clone(),
+        _ => all.to_vec(),
+    };
+    let conforms = union.iter().all(|x| offered.contains(x));
+    let c0w = WorldModel { pkg: "test:c0".into(), world: "w".into(), imports: vec![shared(&a)], exports: vec![WorldItem::Func { name: "fx".into(), func: func("fx", 0) }] };
+    let c1w = WorldModel { pkg: "test:c1".into(), world: "w".into(), imports: vec![shared(&b)], exports: vec![WorldItem::Func { name: "fz".into(), func: func("fz", 0) }] };
+    let tw = WorldModel { pkg: "test:tgt".into(), world: "w".into(), imports: vec![shared(&offered)], exports: vec![WorldItem::Func { name: "fx".into(), func: func("fx", 0) }] };
+    let build = |w: &WorldModel| catch(|| witgen::build_component(&[], &witgen::print_world_pkg(w), "w")).ok().and_then(|r| r.ok());
+    let (Some(c0), Some(c1)) = (build(&c0w), build(&c1w)) else {
+        ctx.count("gen-fail");
+        return;
+    };
+    let world_text = witgen::print_world_pkg(&tw);
+    let Some(world_pkg) = catch(|| witgen::encode_wit_package(&[], &world_text)).ok().and_then(|r| r.ok()) else {
+        ctx.count("gen-fail");
+        return;
+    };
+    let first_c0 = rng.chance(1, 2);
+    let lets = if first_c0 { "let i = new test:c0 { ... };\nlet j = new test:c1 { ... };\n" } else { "let j = new test:c1 { ... };\nlet i = new test:c0 { ... };\n" };
+    let body = format!("{lets}export i[\"fx\"];\n");
+    let with_target = format!("package test:comp targets test:tgt/w;\n{body}");
+    let without_target = format!("package test:comp;\n{body}");
+    let input = json!({"c0": witgen::print_world_pkg(&c0w), "c1": witgen::print_world_pkg(&c1w), "target": world_text, "document": with_target});
+    let packages = vec![("test:c0".to_string(), c0), ("test:c1".to_string(), c1), ("test:tgt".to_string(), world_pkg.clone())];
+    ctx.eval();
+    let Ok((v_resolve, _)) = resolve_verdict(&with_target, &packages) else {
+        ctx.count("pipeline-panic-skipped");
+        return;
+    };
+    let output = match resolve_verdict(&without_target, &packages[..2]) {
+        Ok((Verdict::Accept, Some(b))) => b,
+        _ => {
+            ctx.count("composition-without-target-does-not-encode");
+            return;
+        }
+    };
+    let v_standalone = match catch(|| standalone_verdict(&world_pkg, &output)) {
+        Ok(Ok(v)) => v,
+        _ => {
+            ctx.count("standalone-setup-error");
+            return;
+        }
+    };
+    let v_ref = reference_verdict(&world_pkg, &output).ok();
+    ctx.count(if conforms { "merged-import:world-offers-the-union" } else { "merged-import:world-offers-less-than-the-union" });
+    let want_accept = conforms;
+    if (v_resolve == Verdict::Accept) != want_accept {
+        ctx.violation(case, &format!("C11:merged-import:resolve-verdict:{}-vs-expected-{}", class(&v_resolve), if want_accept { "accept" } else { "reject" }), format!("two instantiations need {a:?} and {b:?} of import `shared`, the world offers {offered:?}; Document::resolve -> {v_resolve:?}"), input.clone());
+    }
+    if (v_standalone == Verdict::Accept) != want_accept {
+        ctx.violation(case, &format!("C11:merged-import:standalone-verdict:{}-vs-expected-{}", class(&v_standalone), if want_accept { "accept" } else { "reject" }), format!("needs {a:?} and {b:?}, world offers {offered:?}; validate_target -> {v_standalone:?}"), input.clone());
+    }
+    if let Some(r) = v_ref {
+        if r != want_accept {
+            ctx.violation(case, &format!("C11:merged-import:reference-verdict:{r}-vs-expected-{want_accept}"), format!("needs {a:?} and {b:?}, world offers {offered:?}; wasmparser `output <: world` = {r}"), input.clone());
+        }
+    }
+    ctx.shape_str(&format!("merged|{a:?}|{b:?}|{offered:?}|{first_c0}"));
+}
+
 pub fn run(ctx: &mut Ctx) {
     let total = ctx.n(1_500, 200_000);
     // directed witness of the recorded finding (resource of an interface that the world both imports,
@@ -135,6 +217,11 @@ pub fn run(ctx: &mut Ctx) {
         }
         ctx.begin(case);
         let fixed = case >= witness && case <= witness + 2;
+        if !fixed && case % 5 == 4 {
+            let mut rng = ctx.rng(case);
+            merged_import_case(ctx, case, &mut rng);
+            continue;
+        }
         let fixed_b = case == witness + 1;
         let fixed_c = case == witness + 2;
         let mut rng = ctx.rng(case);
